@@ -61,7 +61,7 @@ def hoeffding_eps(S):
 
 def cases(tier, seed):
     k = 1 if tier == "quick" else 12
-    return [("thresholder", i) for i in range(70 * k)] + [("eg_class", i) for i in range(26 * k)] + [("eg_regr", i) for i in range(24 * k)]
+    return [("thresholder", i) for i in range(70 * k)] + [("eg_class", i) for i in range(48 * k)] + [("eg_regr", i) for i in range(24 * k)]
 
 
 def n_seeds(tier):
@@ -162,6 +162,16 @@ def run_thresholder(ctx, rng, S):
         table[k] = pq[i]
     for i in range(n):
         ctx.check(abs(table[(s[i], g[i])] - p[i]) <= 1e-15, "thresholder_pmf_depends_on_more_than_score_and_group", row=i, wit=wit)
+    # the probability of a row must not depend on which other rows/groups are in the query
+    glist = list(dict.fromkeys(g))
+    for sub in [[gv] for gv in glist] + [glist[1:], glist[::-1][:2]]:
+        rows = [i for i in range(len(qs)) if qg[i] in sub]
+        if not rows:
+            continue
+        psub = np.asarray(to._pmf_predict(Xq[rows], sensitive_features=[qg[i] for i in rows]))[:, 1]
+        ctx.ev("thresholder_consistency_checks")
+        bad = [(qs[i], repr(qg[i]), float(psub[j]), float(table[(qs[i], qg[i])])) for j, i in enumerate(rows) if psub[j] != table[(qs[i], qg[i])]]
+        ctx.check(not bad, "thresholder_pmf_depends_on_the_other_rows_of_the_query", groups_in_query=[repr(v) for v in sub], mismatches=bad[:4], wit=wit)
     if not flip:
         for gv in dict.fromkeys(g):
             pts = sorted((sc, pr) for (sc, gg), pr in table.items() if gg == gv)
@@ -179,11 +189,15 @@ def run_eg_class(ctx, rng, S):
 
     kind = RM.PARITY[int(rng.integers(0, 5))]
     bound = ML.BOUNDS[int(rng.integers(0, len(ML.BOUNDS)))]
-    ds = ML.make_dataset(rng, nmin=10, nmax=30, kmax=3, feature_levels=int(rng.integers(2, 6)), control=bool(rng.random() < 0.3))
+    ds = ML.make_dataset(rng, nmin=12, nmax=40, kmax=3, feature_levels=int(rng.integers(3, 6)), control=bool(rng.random() < 0.2))
     moment, ratio, eps = ML.make_moment(kind, bound)
-    lp = bool(rng.random() < 0.5)
-    eg = red.ExponentiatedGradient(ExactLearner(hclass=gen.pick(rng, ["cells", "thresholds"])), moment, eps=float(gen.pick(rng, [0.02, 0.05, 0.1])),
-                                   max_iter=int(gen.pick(rng, [5, 10, 20])), nu=1e-6, run_linprog_step=lp)
+    lp = bool(rng.random() < 0.35)
+    if lp:
+        cfg = dict(eps=float(gen.pick(rng, [0.02, 0.05, 0.1])), max_iter=int(gen.pick(rng, [5, 10, 20])))
+    else:
+        # regime in which predictors first discovered during the gap evaluation enter the support later: weights_ out of id order
+        cfg = dict(eps=float(gen.pick(rng, [0.2, 0.3, 0.05])), max_iter=int(gen.pick(rng, [10, 20, 40])), eta0=float(gen.pick(rng, [8.0, 30.0])))
+    eg = red.ExponentiatedGradient(ExactLearner(hclass=gen.pick(rng, ["cells", "thresholds"])), moment, nu=1e-6, run_linprog_step=lp, **cfg)
     kw = {"sensitive_features": ds.g}
     if ds.c is not None:
         kw["control_features"] = ds.c
